@@ -87,8 +87,12 @@ def run(ctx):
             # finished work is not requested again: frames sent <= chunks not marked (+ per file at most one verification re-send and the `tail` last marked chunks the sender is configured to re-send)
             if sent > allc - marked + nfiles * (1 + c['base'].get('tail', 0)):
                 ctx.violation("C04:finished-work-resent", f"{c['name']}: {marked} of {allc} chunks were marked on disk but the resumed run sent {sent} frames", rep)
+    # the negotiation itself: which chunks travel for a given report (Model/Resume) - finished work is not requested again
+    from checks import resumegen
+    n_plan, d_plan, plan_stats = resumegen.run(ctx, exe, "C04")
     ctx.coverage.update({
-        "evaluations": len(cases) + len(wl) + len(prior_cases), "distinct_nontrivial": resumed + sum(1 for r in pres if r.get("equal")),
+        "resume_reports": n_plan, "resume_report_outcomes": plan_stats, "disagreements_model_vs_impl": d_plan,
+        "evaluations": len(cases) + len(wl) + len(prior_cases) + n_plan, "distinct_nontrivial": resumed + sum(1 for r in pres if r.get("equal")),
         "prior_state_resumes": len(prior_cases),
         "rule": "resumes from hand-made on-disk states: every (quick: half of all) subset of marked chunks of a 6-chunk file x sender tail {0,1,2}; workloads as in C05; per workload seeded chains of 1-3 kills at random hits of 8 hook points (receiver before/after write, after mark, between temp write and rename, after rename, before finalize; "
                 "sender before chunk, before FileEnd), half of them with the flusher firing at the kill instant; after the chain an uninterrupted resumed run into the same directory must return nil on both sides with an "
